@@ -81,7 +81,9 @@ def run(prog: Program, res: Result) -> None:
     if not ok:
         bad("R1-init-population-size", ip.node, "_init_population does not create exactly self._config.population_size agents",
             key="abstract.OptimizationAbstract._init_population::size")
-    for (rule, node, msg) in check_population_helpers(prog):
+    for (rule, node, msg) in check_population_helpers(prog, size_only=True):
+        if "sorted" in rule:
+            continue      # ordering before pairing is C16's concern; the count is one result per incumbent either way
         bad("R1-" + rule.split("-", 1)[1], node, msg)
     # get_pool_results (shared obligation with C11)
     from .c11 import run as _c11  # noqa: F401  (C11 decides the gather loop; referenced in the evidence)
